@@ -337,12 +337,35 @@ def rule_release_retarget(ctx, rep, rule="R-RELEASE-RETARGET"):
             if not any(F.ty(t)["k"] == "ref" and F.ty(t)["mut"] and F.tokens(F.ty(t)["t"])[0] > 0 for t in b.get("inputs", [])):
                 continue
             key = b["key"]
+            mparams = {i + 1 for i, t in enumerate(b.get("inputs", [])) if F.ty(t)["k"] == "ref" and F.ty(t)["mut"] and F.tokens(F.ty(t)["t"])[0] > 0}
+            Bb = cfg.Body(b)
+
+            def of_param(e):
+                """The releasing event acts on the handle behind the `&mut` parameter (not on some other handle the function
+                owns, such as a freshly built one it drops when a clone panics)."""
+                from .props import c03 as _c03
+
+                if not isinstance(e.get("bb"), int) or e["bb"] >= len(b["blocks"]):
+                    return True
+                tt = b["blocks"][e["bb"]]["term"]
+                if tt["k"] == "drop":
+                    if "deref" not in tt["place"]["p"]:
+                        return False  # a value the function owns itself
+                    return bool(_c03.root_args(Bb, tt["place"]["l"]) & mparams) or tt["place"]["l"] in mparams
+                if tt["k"] == "call":
+                    for a in tt["args"]:
+                        pl = operand_place(a)
+                        if pl is not None and (pl["l"] in mparams or _c03.root_args(Bb, pl["l"]) & mparams):
+                            return True
+                    return False
+                return True
+
             # normal paths on which a release (dec) is followed by a retargeting store
             shape = False
             for p in A.paths.get(key, []):
                 if p.exit != "ret":
                     continue
-                i_dec = next((i for i, e in enumerate(p.events) if vget(e["vec"], "dec") > 0), None)
+                i_dec = next((i for i, e in enumerate(p.events) if vget(e["vec"], "dec") > 0 and of_param(e)), None)
                 if i_dec is not None and any(vget(e["vec"], "retgt") > 0 or e["kind"] == "RETARGET" for e in p.events[i_dec:]):
                     shape = True
                     break
@@ -353,7 +376,7 @@ def rule_release_retarget(ctx, rep, rule="R-RELEASE-RETARGET"):
             for p in A.paths.get(key, []):
                 if p.exit != "unw" or (p.origin or "std") not in ("user", "panic"):
                     continue
-                i_dec = next((i for i, e in enumerate(p.events) if vget(e["vec"], "dec") > 0), None)
+                i_dec = next((i for i, e in enumerate(p.events) if vget(e["vec"], "dec") > 0 and of_param(e)), None)
                 if i_dec is None:
                     continue
                 if not any(vget(e["vec"], "retgt") > 0 or e["kind"] == "RETARGET" for e in p.events[i_dec:]):
